@@ -114,6 +114,15 @@ func hasRef(repoURL string) bool {
 
 // cleanedRelativePath returns a cleaned relative path of file to root on fSys
 func cleanedRelativePath(fSys filesys.FileSystem, root filesys.ConfirmedDir, file string) string {
+	locPath, err := cleanedRelativePathOrError(fSys, root, file)
+	if err != nil {
+		log.Fatal(err)
+	}
+	return locPath
+}
+
+// cleanedRelativePathOrError is cleanedRelativePath for callers that can report a file system error
+func cleanedRelativePathOrError(fSys filesys.FileSystem, root filesys.ConfirmedDir, file string) (string, error) {
 	abs := file
 	if !filepath.IsAbs(file) {
 		abs = root.Join(file)
@@ -121,13 +130,13 @@ func cleanedRelativePath(fSys filesys.FileSystem, root filesys.ConfirmedDir, fil
 
 	dir, f, err := fSys.CleanedAbs(abs)
 	if err != nil {
-		log.Fatalf("cannot clean validated file path %q: %s", abs, err)
+		return "", errors.WrapPrefixf(err, "cannot clean validated file path %q", abs)
 	}
 	locPath, err := filepath.Rel(root.String(), dir.Join(f))
 	if err != nil {
-		log.Fatalf("cannot find path from parent %q to file %q: %s", root, dir.Join(f), err)
+		return "", errors.WrapPrefixf(err, "cannot find path from parent %q to file %q", root, dir.Join(f))
 	}
-	return locPath
+	return locPath, nil
 }
 
 // locFilePath converts a URL to its localized form, e.g.
